@@ -283,6 +283,42 @@ func (w *Worker) Distinct(key string) {
 	w.mu.Unlock()
 }
 
+// Count accounts for n evaluated inputs of which d are distinct and non-trivial (bulk form of
+// Record/Distinct for the input enumerators, where per-input bookkeeping would dominate).
+func (w *Worker) Count(n, d int64) {
+	w.lastBeat.Store(time.Now().UnixNano())
+	w.mu.Lock()
+	w.S.Evaluations += n
+	w.S.Executions += n
+	w.S.Distinct += d
+	w.mu.Unlock()
+}
+
+// Sample records an example case without counting it.
+func (w *Worker) Sample(c Case) {
+	w.mu.Lock()
+	if len(w.S.Samples) < 6 {
+		w.S.Samples = append(w.S.Samples, c)
+	}
+	w.mu.Unlock()
+}
+
+// Violate records a violation found by an enumerator.
+func (w *Worker) Violate(c Case, viol string) {
+	w.mu.Lock()
+	k := kindOf(viol)
+	if len(w.S.Violations) < 200 {
+		w.S.Violations = append(w.S.Violations, Violation{Case: c, Kind: k, Detail: viol, Sig: Signature(c, k)})
+	}
+	w.mu.Unlock()
+}
+
+func (w *Worker) Outcome(o string, n int) {
+	w.mu.Lock()
+	w.S.Outcomes[o] += n
+	w.mu.Unlock()
+}
+
 func (w *Worker) AddStates(n int) {
 	w.mu.Lock()
 	w.S.States += int64(n)
